@@ -1069,6 +1069,8 @@ def e2e_run(uft, objdir, prog, work, idx, case):
             ob["dat"][int(m.group(1))] = open(os.path.join(data, f), "rb").read()
     ob["analysis"] = {}
     for c in (["replay"], ["report"], ["dump"]):
+        if c[0] == "report" and case.get("light"):
+            continue                       # (quick tier: `report` on every second run only)
         rc, out, err = sh(["timeout", "60", uft] + c + ["--no-pager", "-d", data], timeout=70)
         ob["analysis"][c[0]] = (rc, (err or "")[-200:])
         if c[0] == "dump" and rc == 0:
@@ -1171,8 +1173,11 @@ def coq_ecase(ftab, nt, maxd, log1, log2, dat, crash1, crash2, nest, free=False)
                 coq_bytes(dat), coq.coq_bool(crash1), coq.coq_bool(crash2), coq.coq_bool(nest), coq.coq_bool(free)))
 
 
-def run_e2e(ctx, objdir):
-    rng = ctx.rng
+def run_e2e(ctx, objdir, out=None):
+    """generate programs, do the traced runs, judge; with `out` (quick tier: in a side thread, next to the store-level
+    ties) only the runs are done here and the caller judges later"""
+    import random
+    rng = random.Random(ctx.subseed("e2e"))
     del E2E_TIMEOUTS[:]
     uft = os.path.join(objdir, "uftrace")
     work = os.path.join(ctx.scratch, "e2e")
@@ -1246,12 +1251,23 @@ def run_e2e(ctx, objdir):
                 # SIGKILL from outside at an arbitrary instant (not at a traced event) while every thread loops
                 case.update({"how": "loop", "kind": "async_kill", "th": -1, "at": -1,
                              "async_kill": rng.choice([0, 1, 2, 3]), "opts": rng.choice([[], ["-b", "4k"], ["-b", "4k"]])})
+            case["light"] = (not ctx.thorough()) and len(cases) % 2 == 1
             cases.append(case)
     t0 = time.time()
     with concurrent.futures.ThreadPoolExecutor(max_workers=6) as ex:
         obs = list(ex.map(lambda ic: e2e_run(uft, objdir, progs[ic[1]["prog"]], work, ic[0], ic[1]), enumerate(cases)))
     ctx.log("end-to-end: %d traced runs in %.1fs" % (len(cases), time.time() - t0))
+    if out is not None:
+        out["res"] = (progs, cases, obs)
+        return
     e2e_judge(ctx, progs, cases, obs)
+
+
+def run_e2e_side(ctx, objdir, out):
+    try:
+        run_e2e(ctx, objdir, out)
+    except Exception as ex:          # reported by the main thread
+        out["error"] = "%s: %s" % (type(ex).__name__, str(ex)[:400])
 
 
 def e2e_judge(ctx, progs, cases, obs):
@@ -1509,13 +1525,24 @@ def run(ctx):
     fw = {}
     th = threading.Thread(target=fork_fail_e2e, args=(ctx, objdir, fw))
     th.start()
+    e2e_out, th2 = {}, None
+    if not ctx.thorough():
+        th2 = threading.Thread(target=run_e2e_side, args=(ctx, objdir, e2e_out))
+        th2.start()
     try:
         rec_exe, prod_exe, f0 = run_store(ctx, objdir)
         run_multi(ctx, rec_exe, prod_exe, f0)
         run_live(ctx, rec_exe)
     except RuntimeError as ex:       # e.g. the harness no longer compiles against cmds/record.c: keep searching end to end
         ctx.broken("store-level / liveness tie could not run: %s" % str(ex)[:300], str(ex))
-    run_e2e(ctx, objdir)
+    if th2 is None:
+        run_e2e(ctx, objdir)
+    else:
+        th2.join()
+        if "res" in e2e_out:
+            e2e_judge(ctx, *e2e_out["res"])
+        else:
+            ctx.broken("end-to-end runs failed: %s" % e2e_out.get("error", "?"))
     th.join()
     fork_fail_verdict(ctx, fw)
 
